@@ -130,7 +130,8 @@ def gen_case(rng: random.Random, pid: str, uid: str) -> dict:
         states.insert(rng.randrange(len(states) + 1),
                       {"name": "dflt", "kind": "default", "first": False, "must_finish": False, "next": None,
                        "next_as_obj": False, "sig": list(PARAMS), "doc": None})
-    if pid == "C03":
+    if pid == "C03" or rng.random() < 0.3:
+        # any ordered subset of (tm, state_tm, initial_call), e.g. (self, initial_call, tm)
         for st in states:
             st["sig"] = rng.choice(SUBSETS)
     # ---- class layout: single class, or base + sub with additions and overrides
